@@ -6,7 +6,7 @@ RULE = (
     "#expected callbacks); non-trivial = run with a self-trade or a round with >=3 fills."
 )
 ASSUMPTIONS = ["a callback carrying a field-equal record of the same type counts as 'that record'"]
-BUDGET = {"quick": 300, "thorough": 8000}
+BUDGET = {"quick": 300, "thorough": 48000}
 REQUIRED = {
     "quick": {"callbacks_observed": 20000, "class/run_with_self_trade": 20,
               "class/run_with_round_of_3plus_fills": 20, "class/run_with_hft_path_events": 50,
